@@ -69,17 +69,21 @@ def union_broken(tls):
     return z3.And(*[O.broken(tl) if tl.terms else z3.BoolVal(False) for tl in tls]) if tls else z3.BoolVal(True)
 
 
+MODE = ["sym"]  # set per run: replays judge feasibility claims robustly (float tolerances of the LP solver)
+
+
 def share_behaviour(t1, t2):
     rows = list(O.rows_of(t1)) + list(O.rows_of(t2))
     names = O.names_of(rows)
     A, b = O.matrix_of(rows, names)
-    return lp.feasible_formula(A, b)
+    return lp.feasibility_claims(MODE[0], A, b)
 
 
 def run(ctx, job):
     from pacti.contracts.polyhedral_iocontract import NestedPolyhedra, PolyhedralIoContractCompound
 
     E = O.E
+    MODE[0] = ctx.mode
     kind = job["kind"]
     if kind == "contains":
         tls = mk_alts(ctx, job["alts"], "n")
@@ -108,17 +112,20 @@ def run(ctx, job):
         return {"cls": f"contains:{ans}", "res": {"cmp": ans}}
     if kind == "ctor":
         tls = mk_alts(ctx, job["alts"], "n")
-        overlap = z3.Or(*[share_behaviour(tls[i], tls[j]) for i in range(len(tls)) for j in range(i + 1, len(tls))])
+        pairs = [share_behaviour(tls[i], tls[j]) for i in range(len(tls)) for j in range(i + 1, len(tls))]
+        # rejected although no pair robustly shares a behaviour / accepted although some pair robustly does
+        overlap_robust = z3.Or(*[p[0] for p in pairs])
+        disjoint_robust = z3.And(*[p[1] for p in pairs])
         try:
             NestedPolyhedra(tls, force_empty_intersection=True)
         except ValueError:
-            ctx.obligation("overlap-rejected-only-if-shared-behaviour", z3.Not(overlap))
+            ctx.obligation("overlap-rejected-only-if-shared-behaviour", disjoint_robust)
             ctx.tag("ctor:VE")
             return {"cls": "ctor:VE"}
         except Exception as e:
             ctx.expect("only-documented-exceptions", False, info=B.classify(e) + "@" + B.innermost_pacti_frame(e))
             return {"cls": B.classify(e)}
-        ctx.obligation("accepted-only-if-no-shared-behaviour", overlap)
+        ctx.obligation("accepted-only-if-no-shared-behaviour", overlap_robust)
         ctx.tag("ctor:OK")
         return {"cls": "ctor:OK"}
     if kind == "le":
@@ -165,7 +172,7 @@ def run(ctx, job):
             rows = O.rows_of(tl)
             nm = O.names_of(rows)
             Am, bm = O.matrix_of(rows, nm)
-            ctx.obligation(f"no-empty-alternative-in-merged-{which}", z3.Not(lp.feasible_formula(Am, bm)), info=f"alt{k}")
+            ctx.obligation(f"no-empty-alternative-in-merged-{which}", lp.feasibility_claims(ctx.mode, Am, bm)[1], info=f"alt{k}")
     ctx.expect("merged-interface", [v.name for v in r.inputvars] == ["x"] and [v.name for v in r.outputvars] == ["y"])
     return {"cls": "merge:OK"}
 
